@@ -128,6 +128,25 @@ impl ActorRec {
         }
         s
     }
+    /// first moment at which the actor's task had demonstrably finished (queued requests destroyed)
+    pub fn dead_seq(&self) -> u64 {
+        let mut s = u64::MAX;
+        if let Some(x) = self.first_panic_seq() {
+            s = s.min(x);
+        }
+        if let Some((x, o)) = self.start_exit() {
+            if *o != Out::Ok {
+                s = s.min(x);
+            }
+        }
+        if let Some((x, _)) = self.stop_exit() {
+            s = s.min(x);
+        }
+        if let Some(j) = &self.joined {
+            s = s.min(j.0);
+        }
+        s
+    }
     pub fn ended(&self) -> bool {
         self.joined.is_some()
     }
@@ -319,7 +338,7 @@ impl<'a> History<'a> {
                         ar.joined = Some((e.seq, e.t, res.clone()));
                     }
                 }
-                EvKind::Panic { msg } => match h.task_of_actor.get(&e.task) {
+                EvKind::Panic { msg, .. } => match h.task_of_actor.get(&e.task) {
                     Some(a) => h.actors[*a as usize].panics.push((e.seq, msg.clone())),
                     None => h.other_panics.push((e.seq, e.task, msg.clone())),
                 },
